@@ -164,6 +164,12 @@ def check_pair(case) -> Result:
         return Result(classes=(f'mating-rejected:{type(e).__name__}',))
     T = U.cls('Torque')
     drive_si, load_si = U.si('Torque', *case['drive']), U.si('Torque', *case['load'])
+    for who, attr, unit in case.get('reexpress') or []:
+        # the user re-expresses a parameter of a gear in place after the mating (same physical quantity)
+        q = getattr(g if who == 'g' else h, attr, None)
+        if q is not None and hasattr(q, 'to'):
+            q.to(unit, inplace=True)
+            res.classes += ('parameter-re-expressed',)
     for x in (g, h):
         x.driving_torque = T(*case['drive'])
         x.load_torque = T(*case['load'])
@@ -205,7 +211,7 @@ def check_pair(case) -> Result:
         res.bad(f'C09/exception/{type(e).__name__}', f'{case}: {type(e).__name__}: {e}')
     z = gs.get('n_teeth', 0)
     res.nontrivial = bool(_has(gs, 'module') and z not in G._LX and drive_si != load_si)
-    res.classes = (f'pair:{case["pair"]}', f'role:{case["role"]}',
+    res.classes += (f'pair:{case["pair"]}', f'role:{case["role"]}',
                    'g:' + ''.join(k[0] for k in ('module', 'face_width', 'E', 'ref_diameter') if _has(gs, k)),
                    'h:' + ''.join(k[0] for k in ('module', 'face_width', 'E', 'ref_diameter') if _has(hs, k)))
     return res
@@ -317,6 +323,11 @@ def s_pair(draw):
         h = {'type': 'worm', 'n_starts': draw(st.integers(1, 4)), 'helix': hx_worm, 'pressure': [pa, 'deg'],
              'ref_diameter': opt(_qs('Length', -3, -1))}
     case['g'], case['h'] = g, h
+    if draw(st.integers(0, 4)) == 0:
+        kinds = {'module': 'Length', 'face_width': 'Length', 'reference_diameter': 'Length', 'elastic_modulus': 'Stress',
+                 'helix_angle': 'Angle', 'pressure_angle': 'Angle'}
+        case['reexpress'] = [[draw(st.sampled_from(['g', 'h'])), a_, draw(st.sampled_from(list(U.UNITS[kinds[a_]])))]
+                             for a_ in draw(st.lists(st.sampled_from(sorted(kinds)), min_size=1, max_size=3))]
     if draw(st.integers(0, 3)) == 0:
         case['deepcopy'] = {'drive': draw(_qs('Torque', -3, 3, True)), 'load': draw(_qs('Torque', -3, 3, True))}
     if draw(st.integers(0, 2)) == 0:
